@@ -125,8 +125,9 @@ def add_forms(forms, matrix, pdf, page, resources, stream, font_map):
         input_value = element.attrib.get('value', 'Yes')
         default_name = f'unknown-{page_reference.decode()}-{i}'
         input_name = element.attrib.get('name', default_name)
-        # TODO: where does this 0.75 scale come from?
-        font_size = style['font_size'] * 0.75
+        # Scale includes zoom and pixels to points ratio.
+        scale = matrix[0][0]
+        font_size = style['font_size'] * scale
         field_stream = stream.clone()
         field_stream.set_color(style['color'])
         field = pydyf.Dictionary({
@@ -151,7 +152,7 @@ def add_forms(forms, matrix, pdf, page, resources, stream, font_map):
                     pdf.add_object(group)
                     pdf.catalog['AcroForm']['Fields'].append(group.reference)
                 group = radio_groups[form][input_name]
-                font_size = style['font_size'] * 0.5
+                font_size = style['font_size'] * scale / 1.5
                 character = 'l'  # Disc character in Dingbats
             else:
                 character = '4'  # Check character in Dingbats
